@@ -152,17 +152,22 @@ pub struct ReplayStats { pub lines: u64, pub calls: u64, pub bad: u64 }
 
 // ------------------------------------------------------------------------------------------ C02
 pub fn record_c02(rng: &mut Rng, count: u64, out: &mut Out) {
-  for _ in 0..count {
+  for k in 0..count {
     let (lon, lat, class) = any_position(rng);
     let mut cs = Vec::new();
     let mut panicked = 0;
+    // the cell number of a position is also returned by hash_with_dxdy (an independent, projection based algorithm): one chain
+    // in four is recorded through it
+    let via_dxdy = k % 4 == 3;
     for depth in 0..=29u8 {
-      match guarded(|| nested::hash(depth, lon, lat)) {
-        Some(h) => cs.push(cell_json(depth, h)),
+      let r = if via_dxdy { guarded(|| nested::hash_with_dxdy(depth, lon, lat).0) } else { guarded(|| nested::hash(depth, lon, lat)) };
+      match r {
+        Some(h) if h < n_hash(depth) => cs.push(cell_json(depth, h)),
+        Some(_) => cs.push(json!([98, 0, 0])),
         None => { panicked = 1; cs.push(json!([99, 0, 0])); }
       }
     }
-    out.emit(json!({"ev": "hier", "cs": cs, "p": panicked, "cls": class, "in": pos_str(lon, lat)}));
+    out.emit(json!({"ev": "hier", "cs": cs, "p": panicked, "cls": class, "fn": if via_dxdy { "hash_with_dxdy" } else { "hash" }, "in": pos_str(lon, lat)}));
   }
 }
 
@@ -422,8 +427,22 @@ pub fn cellgeo_event(depth: u8, c: Cell) -> Value {
       sph_dev = sph_dev.max((a - (c.i as f64 + dx)).abs()).max((cc - (c.j as f64 + dy)).abs());
     } }
     // points of the edge path and of the inner grid: on / in the closure of the cell, hashing back to it once nudged inwards
-    let path = layer.path_along_cell_edge(h, &card(order[(c.i as usize + c.j as usize) % 4]), (c.i + c.j) % 2 == 0, 3);
-    let grid = layer.grid(h, 2);
+    // parameters vary with the cell: starting vertex, sense, number of segments (1..4), grid size (1..3)
+    let nseg = 1 + (c.i / 2 + c.j) % 4;
+    let mut path: Vec<(f64, f64)> = layer.path_along_cell_edge(h, &card(order[(c.i as usize + c.j as usize) % 4]), (c.i + c.j) % 2 == 0, nseg).to_vec();
+    // one side through the public side accessor (method and free function): from a vertex to an adjacent one, with / without the end vertex
+    let from = order[(c.i as usize + 2 * c.j as usize) % 4];
+    let to = order[((c.i as usize + 2 * c.j as usize) % 4 + if (c.i / 4 + c.j / 4) % 2 == 0 { 1 } else { 3 }) % 4];
+    let incl = (c.i / 2 + c.j / 2) % 2 == 0;
+    let side = layer.path_along_cell_side(h, &card(from), &card(to), incl, nseg);
+    let side2 = nested::path_along_cell_side(depth, h, &card(from), &card(to), incl, nseg);
+    if side.len() != (nseg as usize + incl as usize) || side2.len() != side.len() || side.iter().zip(side2.iter()).any(|(a, b)| a != b) { vsame = false; }
+    // the side starts at `from` (and ends at `to` when the end vertex is included)
+    let vi = |d: &str| vs[order.iter().position(|o| *o == d).unwrap()];
+    if side.len() > 0 && ang_dist(side[0].0, side[0].1, vi(from).0, vi(from).1) > 1e-13 { vsame = false; }
+    if incl && side.len() > 0 { let l = side[side.len() - 1]; if ang_dist(l.0, l.1, vi(to).0, vi(to).1) > 1e-13 { vsame = false; } }
+    path.extend(side.iter().cloned());
+    let grid = layer.grid(h, 1 + (c.j % 3) as u16);
     let mut pf = Vec::new();
     let mut nudged_bad = 0;
     for (l, b) in path.iter().chain(grid.iter()) {
